@@ -64,6 +64,11 @@ def main():
         rc0, out0 = run_demo(wt, demo)
         meta["demo_without_patch_exit"] = rc0
         rc, out = sh(["git", "-C", wt, "apply", patch])
+        if rc:
+            # written against an earlier HEAD of /repo: three-way merge on the recorded blobs
+            rc, out = sh(["git", "-C", wt, "apply", "--3way", patch])
+            meta["patch_applied_with_3way"] = rc == 0
+            sh(["git", "-C", wt, "reset", "-q"])
         meta["patch_applies"] = rc == 0
         if rc:
             print(name, "patch does not apply:", out[:300])
